@@ -2,7 +2,7 @@
    `ir` op histories) together with the hierarchical-reference kernels, into one module.
    ExtrOcamlBasic only; nat, N, Z, positive stay extracted inductives. No Extract Constant. *)
 From Coq Require Extraction ExtrOcamlBasic.
-From SV Require Import Base.Base IR.State IR.NS IR.Ops Hier.Paths Hier.Enum Hier.Trace Hier.Conn.
+From SV Require Import Base.Base IR.State IR.NS IR.Ops Hier.Paths Hier.Enum Hier.Trace Hier.Conn Extract.DigestHier.
 Extraction Language OCaml.
 Extraction "hier_model.ml" init step
   inv1a_b inv2a_b wfk_b acyclic_b wfc_b top_standalone_b
@@ -11,4 +11,6 @@ Extraction "hier_model.ml" init step
   hinstances_below hports_below hpins_below hcables_below hwires_below
   hrefs_of_instances hrefs_of_item all_ipaths all_hwires
   pin_weight get_hwires get_hcables get_hpins get_hwires_ALL
-  inner_hwire outer_hwire hpins_of_hwire.
+  inner_hwire outer_hwire hpins_of_hwire
+  (* cross-check of extraction + driver glue against vm_compute (harness/coq_eval.py): *)
+  hanswer.
